@@ -113,7 +113,38 @@ def raw_value(inp, cell, field):
     raise ValueError(field)
 
 
-def obs_value(ds, t, l, s, k=None):
+def window_value(inp, field, t, l, s, h, tx="leadtime", agg="mean"):
+    """-T h: aggregate of the input's own series over the trailing window (cur - h, cur] along lead time (or time); None if a
+    member of the window is missing ('change' / 'abschange' look at the two ends only)."""
+    from vmon import refmetrics
+    grid = sorted(inp["leadtimes"] if tx == "leadtime" else inp["times"])
+    cur = l if tx == "leadtime" else t
+    scale = 1.0 if tx == "leadtime" else 3600.0
+    win = [g for g in grid if cur - h * scale < g <= cur]
+    vals = []
+    for g in win:
+        key = ck(t if tx == "leadtime" else g, g if tx == "leadtime" else l, s)
+        vals.append(raw_value(inp, inp["cells"].get(key), field))
+    if not vals:
+        return None
+    if agg in ("change", "abschange"):
+        if vals[0] is None or vals[-1] is None:
+            return None
+        v = vals[-1] - vals[0]
+        return abs(v) if agg == "abschange" else v
+    if any(v is None for v in vals):
+        return None
+    return refmetrics.aggregate(agg, vals)
+
+
+def _val(inp, t, l, s, f, opts):
+    T = (opts or {}).get("T")
+    if T and f[0] in ("obs", "fcst"):
+        return window_value(inp, f, t, l, s, T["h"], T.get("tx", "leadtime"), T.get("agg", "mean"))
+    return raw_value(inp, inp["cells"].get(ck(t, l, s)), f)
+
+
+def obs_value(ds, t, l, s, k=None, opts=None):
     """The observation used for input k: its own file's if that file has observations, otherwise the first obs-bearing
     file's; missing if any input that has obs lacks it."""
     val = None
@@ -123,8 +154,11 @@ def obs_value(ds, t, l, s, k=None):
         if "obs" not in inp["has"]:
             continue
         found = True
-        c = inp["cells"].get(ck(t, l, s))
-        v = None if c is None else c.get("obs")
+        if (opts or {}).get("T"):
+            v = _val(inp, t, l, s, ("obs",), opts)
+        else:
+            c = inp["cells"].get(ck(t, l, s))
+            v = None if c is None else c.get("obs")
         if v is None:
             return None
         val = v if val is None else val
@@ -160,13 +194,13 @@ def case_values(ds, k, fields, t, l, s, opts=None, own_obs=True):
         if f0[0] == "fcst" and opts.get("fcst_field") is not None:
             f = tuple(opts["fcst_field"])
         if f[0] == "obs":
-            v = obs_value(ds, t, l, s, k)
+            v = obs_value(ds, t, l, s, k, opts)
             if v is None:
                 return None
         else:
             v = None
             for j, inp in enumerate(inputs):
-                vj = raw_value(inp, inp["cells"].get(key), f)
+                vj = _val(inp, t, l, s, f, opts)
                 if vj is None:
                     return None
                 if j == k:
